@@ -16,6 +16,7 @@
 import numpy as np
 
 from . import cross_rec as R
+from . import families as F
 from . import tlc
 from . import c06
 
@@ -94,6 +95,22 @@ def run(ctx):
         trs.append(R.record(n, rho, r0, a, b, nswp, False, seed=seed, mcs=0)[0])
         for mcs_ in (0, 1, 2, 5):
             trs.append(R.record(n, rho, r0, a, b, max(nswp, 4) if b == 0 else nswp, True, seed=seed, mcs=mcs_)[0])
+    # working rank fixed below the target's rank, cache and validation data: later sweeps are served (almost) entirely from
+    # the cache while the pivots - and with them the tensor - still move; the validation error in info must follow the
+    # tensor of every sweep (checked at every callback and at the return), and the cached run must report what the
+    # uncached run reports
+    for (n, rho, r0) in (([3, 3, 3], 3, 2), ([4, 4, 4], 4, 3), ([3, 3, 3, 3], 3, 2)):
+        for sd in range(6 if ctx.tier == 'quick' else 25):
+            pr_ = {}
+            for cache in (False, True):
+                tr_, info_, _nc = R.record(n, rho, r0, 0, 0, 6, cache, seed=500 + sd + ctx.seed, vld=True)
+                trs.append(tr_)
+                pr_[cache] = info_
+            ctx.case(key=('under-ranked', tuple(n), rho, r0, sd), nontrivial=True)
+            ctx.check(pr_[False].get('e_vld') == pr_[True].get('e_vld') and pr_[False].get('nswp') == pr_[True].get('nswp'), 'cross:cache-transparency',
+                      'under-ranked fixed-rank run (n=%s, rho=%d, r=%d): the cached run reports e_vld=%r after %r sweeps, the uncached one %r after %r'
+                      % (n, rho, r0, pr_[True].get('e_vld'), pr_[True].get('nswp'), pr_[False].get('e_vld'), pr_[False].get('nswp')),
+                      case={'cfg': [n, rho, r0, 0, 0, 6], 'seed': 500 + sd + ctx.seed})
     # fault suites with validation data / preloaded dictionaries
     fs = R.BASE_CONFIGS[:2] if ctx.tier == 'quick' else R.BASE_CONFIGS
     for k, (n, rho, r0, a, b, nswp) in enumerate(fs):
@@ -108,6 +125,37 @@ def run(ctx):
         if rr.get('stop') in ('nswp', 'e', 'e_vld', 'cb', 'conv') and rr.get('acc_ok'):
             npred += 1
     ctx.notes['traces_ending_exact'] = npred
+    # the cache dictionary seen through the library's own reader: cache_to_data(cache) lists exactly the keys (in
+    # insertion order, one row per key, integer typed) with the oracle's values, the number of rows is info['m'],
+    # and the returned tensor reproduces these data (accuracy_on_data) once the run is exact
+    import teneva
+    for k, (n, rho, r0, a, b, nswp) in enumerate(confs[:4]):
+        rng_ = np.random.default_rng(900 + k + ctx.seed)
+        rr_ = [1] + [rho] * (len(n) - 1) + [1]
+        T_ = [rng_.normal(size=(rr_[j], n[j], rr_[j + 1])) for j in range(len(n))]
+        Td = F.dense(T_)
+        calls_ = []
+
+        def f_(I, Td=Td, calls_=calls_):
+            calls_.append(np.array(I, copy=True))
+            return Td[tuple(np.asarray(I).T)]
+        cache_, info_ = {}, {}
+        Y0_ = teneva.rand(n, max(r0, 1), seed=int(rng_.integers(1 << 30)))
+        Yc = teneva.cross(f_, Y0_, nswp=nswp, dr_min=a, dr_max=b, cache=cache_, info=info_)
+        keys_ = list(cache_.keys())
+        Ic, yc = teneva.cache_to_data(cache_)
+        ctx.case(key=('cache_to_data', tuple(n), rho, r0, a, b, nswp), nontrivial=len(keys_) > 1)
+        okc = isinstance(Ic, np.ndarray) and isinstance(yc, np.ndarray) and Ic.shape == (len(keys_), len(n)) and yc.shape == (len(keys_),)
+        okc = okc and np.issubdtype(Ic.dtype, np.integer) and len(keys_) == info_['m'] == sum(len(c_) for c_ in calls_)
+        okc = okc and np.array_equal(Ic, np.array(keys_, dtype=int)) and np.array_equal(yc, Td[tuple(Ic.T)]) and list(cache_.keys()) == keys_
+        okc = okc and len(set(keys_)) == len(keys_) and set(keys_) == set(tuple(int(x) for x in row) for c_ in calls_ for row in c_)
+        ctx.check(okc, 'cross:cache-contents', 'cache_to_data(cache) after a cached run is not the list of evaluated index -> value pairs '
+                  '(rows %s, keys %d, info m %s, oracle rows %d)' % (getattr(Ic, 'shape', None), len(keys_), info_.get('m'), sum(len(c_) for c_ in calls_)),
+                  case={'cfg': [n, rho, r0, a, b, nswp]})
+        if okc and max(r0, 1) + (nswp if a >= 1 else 0) >= rho and (a >= 1 or r0 >= rho) and nswp >= 2:
+            ea = teneva.accuracy_on_data(Yc, Ic, yc)
+            ctx.check(ea <= 1e-6, 'cross:cache-contents', 'the tensor returned by an exact run does not reproduce the data read from its own cache: accuracy_on_data = %.2e' % ea,
+                      case={'cfg': [n, rho, r0, a, b, nswp]})
     if npred == 0:
         raise tlc.TlcError('no trace reached exact reproduction: exactness clause would be vacuous')
 
